@@ -279,6 +279,20 @@ func (p *parseVisitor) VisitMonetaryAll(c *parser.SendContext, monAll parser.IMo
 		}
 		p.setNeededBalances(accounts, assetAddr)
 
+		// an `allowing overdraft up to M` clause withdraws in M's asset and, when everything is sent,
+		// nothing else compares the funding with the statement's asset: do it here
+		// (funding sum + [ASSET 0] fails with "cannot add different assets" on a mismatch)
+		if hasSpecificOverdraft(c.Source()) {
+			p.AppendInstruction(program.OP_FUNDING_SUM)
+			p.PushAddress(*assetAddr)
+			if err := p.PushInteger(machine.NewNumber(0)); err != nil {
+				return LogicError(c, err)
+			}
+			p.AppendInstruction(program.OP_MONETARY_NEW)
+			p.AppendInstruction(program.OP_MONETARY_ADD)
+			p.AppendInstruction(program.OP_DELETE)
+		}
+
 	case *parser.SrcAllotmentContext:
 		return LogicError(c, errors.New("cannot take all balance of an allotment source"))
 	}
